@@ -36,6 +36,27 @@ the unprefixed ones; integer polynomials of degree 1..6 are evaluated with int64
 compared exactly; the canonical unit cases and random perturbations are evaluated.  code -> spec: random
 deeper expressions (up to 5 leaves, arbitrary prefix strings incl. non-ASCII).  TLC (Trace_PeakModels)
 judges every event.  Any exception counts as refusal (the property names no class).
+
+Hardening round (HARDENING.md items 1-4, 6, 7, 9-11).  The spec grew by: evaluation variants
+(PeakModelsDefs.EvalVariants: element type of x and of the parameters, layout of x, order of the keyword
+arguments - TLC enumerates all 360, the driver attaches them in turn to polynomials and grid points), the
+state machines `typed` (typed Horner: never refused, nothing narrowed; negative control "in_place_types") and
+`reuse` (the caller's objects evaluated again: arguments unchanged, repeatable; negative control
+"scale_in_place"), the extreme part of the parameter grid (amplitudes 1e-100..1e100, locations 1e-9..1e9,
+fractions 2^-30 inside [0, 1]) and the `replay` event.  The driver additionally: lists keyword arguments in
+shuffled order; evaluates polynomials and peak models with integer / float32 / mixed operands, scalar, strided,
+2-d and transposed x (closed form at the values actually handed over; tolerance (4q+16) eps of the narrowest
+floating-point operand); checks after every evaluation that x and the parameter objects are bit-identical to
+what was handed over, that a second evaluation with the same objects returns the same bits and that an earlier
+result keeps its values when the model is evaluated again with other parameters; re-runs a sample of all
+kinds of cases at the end in another order and hands both observations to TLC (`replay`).  A non-finite value
+returned by a model is a verdict (`polynomial_value_is_not_finite`, point-value flags), never a crash.
+Interpretation (lead decision, weakest reading as for C07): the quantifier says nothing about element types, so a
+scipp DTypeError raised for a call with at least one integer-typed operand is an accepted outcome ("unsupported
+element types", counted in the evidence as integer_operands_refused_with_DTypeError); everything a model DOES
+return for integer operands is judged, and any other exception or a refusal of all-floating-point operands is a
+violation.  Polynomial variants give every floating-point coefficient a half-integer value (events carry twice the
+coefficients and twice the values, still exact integers) so that a truncated coefficient shows.
 """
 
 from __future__ import annotations
@@ -43,6 +64,7 @@ from __future__ import annotations
 import json
 import math
 import os
+import random
 from fractions import Fraction
 
 import mpmath
@@ -56,7 +78,10 @@ from ..tlc import require_ok, write_ndjson
 RULE = ('model expressions: leaves x prefixes over {a,0,_} up to length 2, composites of two leaves (enumerated by '
         'TLC) and random expressions up to 5 leaves with arbitrary prefixes; non-trivial = composite or non-empty '
         'prefix. numeric grid: amplitudes {-3,-1,2,7} x scales 10^-6..10^6 x locations {-5,0,3,1000} x fractions k/4; '
-        'every grid point is non-trivial. polynomials: integer coefficients/points, degree 1..6')
+        'every grid point is non-trivial; extreme part: amplitudes 10^(+-12, +-100), locations 3e-9 / -5e6 / 1e9, fractions '
+        '2^-30 inside [0, 1]. polynomials: integer coefficients/points, degree 1..6. evaluation variants (element types '
+        'of x / parameters, layout of x, keyword order): all 360 enumerated by TLC, attached in turn; every variant '
+        'case is non-trivial')
 WORKERS = int(os.environ.get('VERIF_WORKERS', '16'))
 EPS = 2.0 ** -52
 KIND_CLASS = {'poly': 'PolynomialModel', 'gauss': 'GaussianModel', 'lorentz': 'LorentzianModel',
@@ -64,6 +89,95 @@ KIND_CLASS = {'poly': 'PolynomialModel', 'gauss': 'GaussianModel', 'lorentz': 'L
 KIND_LP = {'gauss': 'gaussian', 'lorentz': 'lorentzian', 'pvoigt': 'pseudo_voigt'}
 BASE = {'gauss': ('amplitude', 'loc', 'scale'), 'lorentz': ('amplitude', 'loc', 'scale'),
         'pvoigt': ('amplitude', 'loc', 'scale', 'fraction')}
+
+EPS32 = 2.0 ** -23
+BASE_VARIANT = {'xd': 'float64', 'pd': 'float64', 'layout': '1d', 'order': 'declared'}
+INT_LIMIT = {'int32': 2**31 - 1, 'int64': 2**62}
+
+
+def is_int_type(d):
+    return d in ('int32', 'int64')
+
+
+def typed_scalar(value, want, unit, *, exact):
+    """Scalar of element type `want` holding `value`: -> (variable, element type used, value actually held).
+    Falls back to float64 where `want` cannot hold the value (non-integer or out of range for an integer type;
+    for float32: out of the normal range, or - if `exact` - not representable)."""
+    v = float(value)
+    if is_int_type(want):
+        if v.is_integer() and abs(v) <= INT_LIMIT[want]:
+            return sc.scalar(int(v), dtype=want, unit=unit), want, v
+        want = 'float64'
+    if want == 'float32':
+        with np.errstate(all='ignore'):
+            v32 = float(np.float32(v))
+        if math.isfinite(v32) and (v32 == v or not exact) and (v == 0.0 or 1e-30 < abs(v32) < 1e30):
+            return sc.scalar(v32, dtype='float32', unit=unit), 'float32', v32
+        want = 'float64'
+    return sc.scalar(v, dtype='float64', unit=unit), 'float64', v
+
+
+def typed_values(values, want, *, exact):
+    """numpy array of element type `want` holding `values` (same fallback rule, for the whole array)."""
+    v = np.asarray(values, dtype='float64')
+    if is_int_type(want):
+        if np.all(np.isfinite(v)) and np.all(v == np.round(v)) and np.all(np.abs(v) <= INT_LIMIT[want]):
+            return v.astype(want), want
+        want = 'float64'
+    if want == 'float32':
+        with np.errstate(all='ignore'):
+            v32 = v.astype('float32')
+        ok = np.all(np.isfinite(v32)) and np.all((v == 0.0) | ((np.abs(v32) > 1e-30) & (np.abs(v32) < 1e30)))
+        if ok and (not exact or np.array_equal(v32.astype('float64'), v)):
+            return v32, 'float32'
+    return v, 'float64'
+
+
+def lay_out(vals, layout, unit):
+    """The values `vals` (1-d numpy array of the final element type) as x in the given layout:
+    -> (list of x variables to evaluate, function: list of results -> flat numpy array in the order of vals)."""
+    n = len(vals)
+    if layout == '0d':
+        k = min(n, 4)
+        xs = [sc.scalar(vals[i], dtype=vals.dtype, unit=unit) for i in range(k)]
+        return xs, lambda rs: np.array([r.value for r in rs])
+    if layout == 'strided':
+        big = np.full(3 * n, 7, dtype=vals.dtype)
+        big[::3] = vals
+        x = sc.array(dims=['x'], values=big, unit=unit)['x', ::3]
+        return [x], lambda rs: np.asarray(rs[0].values).reshape(-1)[:n]
+    if layout in ('2d', '2dT'):
+        pad = (-n) % 3
+        full = np.concatenate([vals, vals[:pad]]) if pad else vals
+        a = full.reshape(-1, 3)
+        if layout == '2d':
+            x = sc.array(dims=['r', 'c'], values=a, unit=unit)
+        else:
+            x = sc.array(dims=['c', 'r'], values=np.ascontiguousarray(a.T), unit=unit).transpose(['r', 'c'])
+        return [x], lambda rs: np.asarray(rs[0].transpose(['r', 'c']).values).reshape(-1)[:n]
+    x = sc.array(dims=['x'], values=vals, unit=unit)
+    return [x], lambda rs: np.asarray(rs[0].values).reshape(-1)[:n]
+
+
+def ordered(d, order, rng=None):
+    """The same keyword arguments listed in another order."""
+    keys = list(d)
+    if order == 'reversed':
+        keys = keys[::-1]
+    elif order == 'rotated':
+        keys = keys[1:] + keys[:1]
+    elif order == 'shuffled':
+        rng.shuffle(keys)
+    return {k: d[k] for k in keys}
+
+
+def bits(v):
+    """Everything observable of a variable, bit for bit (-0.0 != 0.0, NaN payloads count)."""
+    return (str(v.dtype), str(v.unit), tuple(v.dims), tuple(v.shape), np.ascontiguousarray(v.values).tobytes())
+
+
+def snapshot(objs):
+    return [bits(o) for o in objs]
 
 
 # --------------------------------------------------------------------------------- letters <-> strings
@@ -152,6 +266,17 @@ def _scal(d):
 
 
 X0 = sc.array(dims=['x'], values=np.array([-2.0, -0.75, 0.0, 0.5, 1.25, 3.0]))
+_X0_BITS = bits(X0)
+_X0_VALUES = tuple(X0.values)
+
+
+def x_for(idx):
+    """x of the routing checks: mostly the 1-d X0, every sixth case a transposed 2-d view / a scalar."""
+    if idx % 6 == 4:
+        return sc.array(dims=['c', 'r'], values=np.ascontiguousarray(X0.values.reshape(2, 3).T)).transpose(['r', 'c'])
+    if idx % 6 == 5:
+        return sc.scalar(float(X0.values[idx % 5]))
+    return X0
 
 
 # --------------------------------------------------------------------------------- name / call events
@@ -191,42 +316,58 @@ def model_events(ctx, events, e, idx, probes='all', rng=None):
             key_sets.append([])
             key_sets.append(want[:1])
             key_sets.append([b + untok(e['prefix']) for b in base])                 # prefix used as a suffix
+    xv = x_for(idx)
     for ks in key_sets:
         if len(set(ks)) != len(ks):
             continue
-        args = {k: sc.scalar(float(vals.get(k, 1.0))) for k in ks}
+        # the keyword arguments are listed in an arbitrary order (the API names no order)
+        args = ordered({k: sc.scalar(float(vals.get(k, 1.0))) for k in ks}, 'shuffled', rng)
         cev = {'ev': 'call', 'tid': 0, 'model': e, 'keys': [toks(k) for k in ks], 'out': 'ok'}
         try:
-            res = m(X0, **args)
+            before = snapshot([xv, *args.values()])
+            res = m(xv, **args)
             if ks == want:
-                got = res.values
-                ref = declared_value(e, vals, X0.values)
+                got = np.array(res.values, copy=True)
+                got_bits = bits(res)
+                fl = [['value_is_not_finite', bool(np.all(np.isfinite(got)))]]
+                ref = declared_value(e, vals, np.asarray(xv.values))
                 scale = sum(abs(v) for v in vals.values()) + 1.0
-                fl = [['value_is_not_the_sum_of_the_parts_with_declared_routing',
-                       bool(np.all(np.abs(got - ref) <= 1e-12 * (np.abs(ref) + scale)))]]
+                fl.append(['value_is_not_the_sum_of_the_parts_with_declared_routing',
+                           bool(np.all(np.abs(got - ref) <= 1e-12 * (np.abs(ref) + scale)))])
                 if e['kind'] == 'comp':
                     left, right = build(e['left'], idx), build(e['right'], idx)
                     p = untok(e['prefix'])
                     la = {n: args[p + n] for n in names_of(e['left'])}
                     ra = {n: args[p + n] for n in names_of(e['right'])}
-                    parts = left(X0, **la) + right(X0, **ra)
+                    parts = left(xv, **la) + right(xv, **ra)
                     fl.append(['composite_is_not_bitwise_left_plus_right', bool(np.array_equal(parts.values, got)
                                                                                 and parts.unit == res.unit)])
                 # prefix independence: same model under other prefixes, same values under renamed keys
                 for q in ('', 'a', 'a0_', 'é '):
                     m2 = m.with_prefix(q)
-                    r2 = m2(X0, **{q + b: args[w] for b, w in zip(base, want, strict=True)})
+                    r2 = m2(xv, **ordered({q + b: args[w] for b, w in zip(base, want, strict=True)}, 'shuffled', rng))
                     fl.append(['result_depends_on_prefix', bool(np.array_equal(r2.values, got) and r2.unit == res.unit)])
                     if not sorted(m2.param_names) == sorted(q + b for b in base):
                         fl.append(['with_prefix_names_differ', False])
                 fl.append(['with_prefix_changed_the_original', bool(sorted(m.param_names) == sorted(want))])
-                events.append({'ev': 'flags', 'tid': 0, 'what': 'routing', 'model': e, 'out': 'ok', 'flags': fl})
+                # second use: the objects handed over are what they were; evaluating them again gives the same
+                # bits; the first result still holds its values after an evaluation with other parameters
+                fl.append(['evaluation_modified_its_arguments', snapshot([xv, *args.values()]) == before])
+                again = m(xv, **ordered(args, 'reversed'))
+                fl.append(['second_evaluation_with_the_same_objects_differs', bits(again) == got_bits])
+                vals2 = param_values(e, random.Random(idx))
+                m(xv, **{k: sc.scalar(float(vals2[k])) for k in args})
+                fl.append(['earlier_result_changed_by_a_later_evaluation', bits(res) == got_bits])
+                events.append({'ev': 'flags', 'tid': 0, 'what': 'routing', 'model': e, 'out': 'ok', 'flags': fl,
+                               'types': []})
                 ctx.case()
         except Exception as exc:  # noqa: BLE001
             cev['out'] = 'refused'
             cev['exc'] = type(exc).__name__
         events.append(cev)
         ctx.case()
+    if bits(X0) != _X0_BITS:
+        X0.values = np.array(_X0_VALUES)      # (the modification itself was flagged above) keep later cases meaningful
     return m
 
 
@@ -244,55 +385,103 @@ def aux_event(ctx, events, e, m, data):
     except Exception as exc:  # noqa: BLE001
         ctx.violation(f'guess/param_bounds raised {type(exc).__name__}', {'model': e, 'exc': repr(exc)[:200]})
         return
-    ev['guess_keys'] = [toks(k) for k in sorted(g)]
-    ev['bounds_keys'] = [toks(k) for k in sorted(b)]
-    ev['guess_same'] = bool(set(g) == {p + k for k in g0} and all(sc.identical(g[p + k], v, equal_nan=True) for k, v in g0.items()
-                                                                   if p + k in g))
-    ev['bounds_same'] = bool(set(b) == {p + k for k in b0} and all(tuple(b[p + k]) == tuple(v) for k, v in b0.items()
-                                                                    if p + k in b))
+    try:
+        ev['guess_keys'] = [toks(k) for k in sorted(g)]
+        ev['bounds_keys'] = [toks(k) for k in sorted(b)]
+        ev['guess_same'] = bool(set(g) == {p + k for k in g0} and all(sc.identical(g[p + k], v, equal_nan=True)
+                                                                       for k, v in g0.items() if p + k in g))
+        ev['bounds_same'] = bool(set(b) == {p + k for k in b0} and all(tuple(b[p + k]) == tuple(v) for k, v in b0.items()
+                                                                        if p + k in b))
+    except Exception as exc:  # noqa: BLE001   (a guess / bounds object that cannot even be read)
+        ctx.violation(f'guess/param_bounds returned a malformed object ({type(exc).__name__})', {'model': e})
+        return
     events.append(ev)
     ctx.case()
 
 
 # --------------------------------------------------------------------------------- polynomials
-def poly_events(ctx, events):
+def coefficient_types(pd, n):
+    """Element type wanted for a_0 .. a_{n-1} under the typing `pd` (PeakModelsDefs.Typings)."""
+    if pd == 'int_leading':
+        return ['float64'] * (n - 1) + ['int64']
+    if pd == 'float_leading':
+        return ['int64'] * (n - 1) + ['float64']
+    if pd == 'int_loc':                       # for a polynomial: only the constant term integer-typed
+        return ['int64'] + ['float64'] * (n - 1)
+    return [pd] * n
+
+
+def poly_case(ctx, events, coefs, k, variant):
+    """One integer polynomial evaluated in one variant; all values are integers that every element type used
+    holds exactly (|value| < 2^22), so TLC compares them with sum a_i x^i exactly."""
     from scippneutron.peaks.model import PolynomialModel
+
+    deg = len(coefs) - 1
+    prefix = ('', 'a', 'bkg_', 'a0')[k % 4]
+    xs = list(range(-8, 9))
+    xvals, xd = typed_values(xs, variant['xd'], exact=True)
+    # in a variant every floating-point coefficient is c + 1/2 (a coefficient truncated into an integer buffer
+    # shows); the event carries den * coefficients and den * values, exact integers for TLC (the polynomial is
+    # linear in its coefficients)
+    den = 2 if variant != {**BASE_VARIANT, 'xd': variant['xd'], 'pd': variant['xd']} or variant['xd'] not in ('int64', 'float64') else 1
+    params, cds, nums = {}, [], []
+    for i, (c, want) in enumerate(zip(coefs, coefficient_types(variant['pd'], deg + 1), strict=True)):
+        half = 0.5 if (den == 2 and not is_int_type(want)) else 0.0
+        v, d, actual = typed_scalar(c + half, want, sc.Unit('K') / sc.Unit('m') ** i, exact=True)
+        params[f'{prefix}a{i}'] = v
+        cds.append(d)
+        nums.append(int(round(den * actual)))
+    other = {name: typed_scalar(float(v.value) + 1, str(v.dtype), v.unit, exact=True)[0] for name, v in params.items()}
+    params = ordered(params, variant['order'])
+    xlist, flat = lay_out(xvals, variant['layout'], 'm')
+    n = min(len(xs), 4) if variant['layout'] == '0d' else len(xs)
+    ev = {'ev': 'poly', 'tid': 0, 'coefs': nums, 'den': den, 'xs': xs[:n], 'got': [], 'out': 'ok', 'xd': xd, 'cds': cds,
+          'layout': variant['layout'], 'order': variant['order'], 'prefix': prefix, 'args_same': True,
+          'again_same': True, 'kept': True}
+    try:
+        m = PolynomialModel(degree=deg, prefix=prefix)
+        before = snapshot([*xlist, *params.values()])
+        rs = [m(x, **params) for x in xlist]
+        first = [bits(r) for r in rs]
+        vals = [den * float(v) for v in flat(rs)]
+        if len(vals) != n:
+            ev['out'] = 'shape'
+        elif not all(math.isfinite(v) for v in vals):
+            ev['out'] = 'nonfinite'
+            ev['values'] = [repr(v) for v in vals]
+        elif not all(v.is_integer() and abs(v) < 2**31 for v in vals):
+            ev['out'] = 'not_integer'
+            ev['values'] = vals
+        else:
+            ev['got'] = [int(v) for v in vals]
+        if any(r.unit != sc.Unit('K') for r in rs):
+            ctx.violation('polynomial: result unit is not the unit of a0', {'coefs': coefs, 'unit': str(rs[0].unit)})
+        ev['args_same'] = bool(snapshot([*xlist, *params.values()]) == before)
+        ev['again_same'] = bool([bits(r) for r in [m(x, **params) for x in xlist]] == first)
+        for x in xlist:
+            m(x, **other)
+        ev['kept'] = bool([bits(r) for r in rs] == first)
+    except Exception as exc:  # noqa: BLE001
+        ev['out'] = 'refused'
+        ev['exc'] = type(exc).__name__
+        ev['exc_detail'] = repr(exc)[:200]
+    events.append(ev)
+    ctx.case(nontrivial_id=('p', tuple(coefs), xd, tuple(cds), variant['layout'], variant['order']))
+
+
+def poly_vectors(ctx):
+    import itertools
 
     rng = ctx.rng
     vectors = []
     for deg in (1, 2):
-        import itertools
         vectors += [list(c) for c in itertools.product(range(-2, 3), repeat=deg + 1)]
     for deg in range(1, 7):
         for _ in range(60 if ctx.thorough else 15):
             vectors.append([rng.randrange(-9, 10) for _ in range(deg + 1)])
         vectors.append([9] * (deg + 1))
         vectors.append([-9 if i % 2 else 9 for i in range(deg + 1)])
-    xs = list(range(-8, 9))
-    for k, coefs in enumerate(vectors):
-        deg = len(coefs) - 1
-        prefix = ('', 'a', 'bkg_', 'a0')[k % 4]
-        for dtype in ('int64', 'float64'):
-            ev = {'ev': 'poly', 'tid': 0, 'coefs': coefs, 'xs': xs, 'got': [], 'out': 'ok', 'dtype': dtype, 'prefix': prefix}
-            try:
-                m = PolynomialModel(degree=deg, prefix=prefix)
-                x = sc.array(dims=['x'], values=np.array(xs, dtype=dtype), unit='m')
-                params = {f'{prefix}a{i}': sc.scalar(np.array(c, dtype=dtype)[()], unit=sc.Unit('K') / sc.Unit('m') ** i)
-                          for i, c in enumerate(coefs)}
-                res = m(x, **params)
-                vals = res.values
-                if not all(float(v).is_integer() and abs(float(v)) < 2**31 for v in vals):
-                    ev['out'] = 'not_integer'
-                    ev['values'] = [float(v) for v in vals]
-                else:
-                    ev['got'] = [int(v) for v in vals]
-                if res.unit != sc.Unit('K'):
-                    ctx.violation('polynomial: result unit is not the unit of a0', {'coefs': coefs, 'unit': str(res.unit)})
-            except Exception as exc:  # noqa: BLE001
-                ev['out'] = 'refused'
-                ev['exc'] = repr(exc)[:200]
-            events.append(ev)
-            ctx.case(nontrivial_id=('p', tuple(coefs), dtype))
+    return vectors
 
 
 # --------------------------------------------------------------------------------- units
@@ -339,7 +528,8 @@ def unit_event(ctx, events, kind, pu, ux, idx):
         vals = [2.0, 0.5, 1.25, 0.5][: len(names)]
     x = sc.array(dims=['x'], values=[0.0, 1.0, 2.5], unit=U(ux))
     params = {prefix + n: sc.scalar(v, unit=U(u)) for n, v, u in zip(names, vals, pu, strict=True)}
-    ev = {'ev': 'unit', 'tid': 0, 'kind': kind, 'pu': [list(u) for u in pu], 'ux': list(ux), 'out': [0, 0, 0, 0]}
+    ev = {'ev': 'unit', 'tid': 0, 'kind': kind, 'pu': [list(u) for u in pu], 'ux': list(ux), 'out': [0, 0, 0, 0],
+          'idx': idx}
     try:
         res = m(x, **params)
         t = unit_triple_cached(res.unit)
@@ -422,13 +612,31 @@ def _quad_nodes():
 _QU, _QW = _quad_nodes()
 
 
-def numeric_event(ctx, events, kind, g, idx):
+def grid_values(g):
+    """(A, mu, s, f) of a grid record: A * 10^ea, mu * 10^em, 10^e, f/4 (fe: moved 2^-30 into (0, 1))."""
+    def scaled(mant, ex):
+        return float(mant * 10**ex) if ex >= 0 else float(mant) * 10.0**ex
+
+    f = g['f'] / 4.0
+    if g.get('fe'):
+        f = f + 2.0**-30 if f < 0.5 else f - 2.0**-30
+    return scaled(g['A'], g.get('ea', 0)), scaled(g['mu'], g.get('em', 0)), 10.0 ** g['e'], f
+
+
+def point_tolerance(kind, xv, mu, s, eps):
+    """Relative tolerance of one point value: 16 roundings of the evaluation plus, for the Gaussian part, the
+    conditioning of exp(-q) on its exponent q (which carries about four roundings)."""
+    sg = s / math.sqrt(2 * lp.LN2) if kind == 'pvoigt' else s
+    q = (xv - mu) ** 2 / (2 * sg * sg) if kind != 'lorentz' else 0.0
+    return max(1e-13 if eps == EPS else 0.0, (4 * q + 16) * eps)
+
+
+def numeric_event(ctx, events, kind, g, idx, variant=None):
     from scippneutron.peaks import model as M
 
     mpmath.mp.dps = 60
     lpk = KIND_LP[kind]
-    A, mu, s = float(g['A']), float(g['mu']), 10.0 ** g['e']
-    f = g['f'] / 4.0
+    A, mu, s, f = grid_values(g)
     prefix = ('', 'peak_', 'a', 'a0')[idx % 4]
     m = getattr(M, KIND_CLASS[kind])(prefix=prefix)
     xu, yu = ('angstrom', 'counts') if idx % 2 else ('us', 'K')
@@ -436,32 +644,47 @@ def numeric_event(ctx, events, kind, g, idx):
               prefix + 'scale': sc.scalar(s, unit=xu)}
     if kind == 'pvoigt':
         params[prefix + 'fraction'] = sc.scalar(f)
+    params = ordered(params, ('declared', 'reversed', 'rotated')[idx % 3])
     fr = f if kind == 'pvoigt' else None
-    ev = {'ev': 'flags', 'tid': 0, 'what': 'closed_form', 'kind': kind, 'grid': g, 'out': 'ok', 'flags': []}
+    ev = {'ev': 'flags', 'tid': 0, 'what': 'closed_form', 'kind': kind, 'grid': g, 'out': 'ok', 'flags': [],
+          'types': ['float64']}
 
     def call(xv):
         return m(sc.array(dims=['x'], values=np.asarray(xv, dtype='float64'), unit=xu), **params)
 
     try:
+        before = snapshot(list(params.values()))
         # ---- point values at the floats actually handed over
         ts = np.array([0.0, 0.25, -0.25, 0.5, -0.5, 1.0, -1.0, 2.0, -2.0, 5.0, -5.0])
         xs = mu + s * ts
-        res = call(xs)
+        x0 = sc.array(dims=['x'], values=xs, unit=xu)
+        x0_bits = bits(x0)
+        res = m(x0, **params)
+        res_bits = bits(res)
         got = res.values
         ok = res.unit == sc.Unit(yu)
         detail = []
         for xv, gv in zip(xs, got, strict=True):
             want = lp.mp_peak(lpk, xv, A, mu, s, fr)
-            sg = s / math.sqrt(2 * lp.LN2) if kind == 'pvoigt' else s
-            q = (xv - mu) ** 2 / (2 * sg * sg) if kind != 'lorentz' else 0.0
-            tol = max(1e-13, (4 * q + 16) * EPS)
-            err = float(abs((mpmath.mpf(float(gv)) - want) / want))
-            if not (math.isfinite(float(gv)) and err <= tol):
+            tol = point_tolerance(kind, xv, mu, s, EPS)
+            err = float(abs((mpmath.mpf(float(gv)) - want) / want)) if math.isfinite(float(gv)) else math.inf
+            if not err <= tol:
                 ok = False
-                detail.append([float(xv), float(gv), float(want), err, tol])
+                detail.append([float(xv), repr(float(gv)), float(want), err, tol])
         ev['flags'].append(['point_values_differ_from_closed_form', bool(ok)])
         if detail:
             ev['detail'] = detail
+        # ---- the same parameter objects, another x of the same shape (asked after the first)
+        xs2 = mu + s * (0.75 * ts + 0.0625)
+        got2 = m(sc.array(dims=['x'], values=xs2, unit=xu), **params).values
+        ok = True
+        for xv, gv in zip(xs2, got2, strict=True):
+            want = lp.mp_peak(lpk, xv, A, mu, s, fr)
+            err = float(abs((mpmath.mpf(float(gv)) - want) / want)) if math.isfinite(float(gv)) else math.inf
+            if not err <= point_tolerance(kind, xv, mu, s, EPS):
+                ok = False
+                ev['detail2'] = [float(xv), repr(float(gv)), float(want), err]
+        ev['flags'].append(['point_values_at_another_x_of_the_same_shape_differ_from_closed_form', bool(ok)])
         # ---- symmetry at exactly representable mirror points
         ok = True
         for t in (0.3, 1.0, 2.7):
@@ -485,7 +708,7 @@ def numeric_event(ctx, events, kind, g, idx):
             tol = 1e-13 + 4 * EPS * cond + 20 * EPS
             if not abs(hv - v[0] / 2) <= tol * abs(v[0] / 2):
                 ok = False
-                ev['half_detail'] = [float(v[0]), float(hv), tol]
+                ev['half_detail'] = [repr(float(v[0])), repr(float(hv)), tol]
         # the reported FWHM against the closed form (informative part of the same clause)
         if not abs(float(fw.value) - float(lp.mp_fwhm(lpk, s))) <= 8 * EPS * float(fw.value):
             ok = False
@@ -498,12 +721,150 @@ def numeric_event(ctx, events, kind, g, idx):
         tol = 1e-8 + 4 * EPS * 1.39 * abs(mu) / s
         okint = abs(integral + tail - A) <= tol * abs(A)
         ev['flags'].append(['integral_is_not_the_amplitude', bool(okint)])
-        ev['integral_rel_err'] = abs(integral + tail - A) / abs(A)
+        ev['integral_rel_err'] = abs(integral + tail - A) / abs(A) if math.isfinite(integral) else repr(integral)
+        # ---- second use of the same objects (after evaluations and fwhm in between)
+        ev['flags'].append(['evaluation_modified_its_arguments',
+                            bool(snapshot(list(params.values())) == before and bits(x0) == x0_bits)])
+        ev['flags'].append(['second_evaluation_with_the_same_objects_differs', bool(bits(m(x0, **params)) == res_bits)])
+        ev['flags'].append(['earlier_result_changed_by_a_later_evaluation', bool(bits(res) == res_bits)])
     except Exception as exc:  # noqa: BLE001
         ev['out'] = 'refused'
-        ev['exc'] = repr(exc)[:200]
+        ev['exc'] = type(exc).__name__
+        ev['exc_detail'] = repr(exc)[:200]
     events.append(ev)
     ctx.case(nontrivial_id=('g', kind, json.dumps(g)))
+    if variant is not None and variant != BASE_VARIANT:
+        variant_event(ctx, events, kind, g, idx, variant)
+
+
+PEAK_TYPINGS = {   # typing -> element type wanted for (amplitude, loc, scale, fraction)
+    'int_loc': ('float64', 'int64', 'float64', 'float64'),
+    'int_leading': ('int64', 'float64', 'int64', 'float64'),
+    'float_leading': ('float64', 'int64', 'int64', 'int64'),
+}
+
+
+def _variant_run(kind, g, idx, variant):
+    """Point values (and the reported FWHM) of one grid point in one evaluation variant against the closed form
+    at the values actually handed over.  -> dict(out, flags, types, detail...)."""
+    from scippneutron.peaks import model as M
+
+    lpk = KIND_LP[kind]
+    A, mu, s, f = grid_values(g)
+    prefix = ('', 'peak_', 'a', 'a0')[idx % 4]
+    xu, yu = ('angstrom', 'counts') if idx % 2 else ('us', 'K')
+    names = list(BASE[kind])
+    if not 1e-30 < abs(A) < 1e30:
+        # a float32 operand makes (parts of) the evaluation single precision, which cannot hold such values
+        variant = {k: ('float64' if v == 'float32' else v) for k, v in variant.items()}
+    if is_int_type(variant['xd']) and variant['pd'] == 'float32':
+        # an integer x would be converted to single precision before loc is subtracted: the difference then
+        # carries the rounding of x itself, not of an evaluation step - not a case with a usable tolerance
+        variant = {**variant, 'pd': 'float64'}
+    wants = PEAK_TYPINGS.get(variant['pd'], (variant['pd'],) * 4)
+    if variant['xd'] == 'float32' and wants[1] == 'float64':
+        # a double-precision location that single precision cannot hold, next to a single-precision x: x is
+        # promoted and the difference is exact - unless the location is narrowed to the precision of x
+        mu = mu + s / 3
+    units = {'amplitude': sc.Unit(yu) * sc.Unit(xu), 'loc': sc.Unit(xu), 'scale': sc.Unit(xu), 'fraction': sc.Unit('one')}
+    held, params, pds = {}, {}, []
+    for name, value, want in zip(('amplitude', 'loc', 'scale', 'fraction'), (A, mu, s, f), wants, strict=True):
+        if name not in names:
+            continue
+        v, d, actual = typed_scalar(value, want, units[name], exact=False)
+        params[prefix + name], held[name] = v, actual
+        pds.append(d)
+    params = ordered(params, variant['order'])
+    # points: integer multiples of the scale for integer-typed x (possible for scales >= 1 at integer locations)
+    int_x = is_int_type(variant['xd']) and s >= 1 and float(mu).is_integer()
+    ts = np.array([0.0, 1.0, -1.0, 2.0, -2.0, 5.0, -5.0, 3.0, -3.0] if int_x
+                  else [0.0, 0.25, -0.25, 0.5, -0.5, 1.0, -1.0, 2.0, -2.0, 5.0, -5.0, 0.125])
+    xvals, xd = typed_values(mu + s * ts, variant['xd'] if (int_x or not is_int_type(variant['xd'])) else 'float64',
+                             exact=False)
+    xlist, flat = lay_out(xvals, variant['layout'], xu)
+    xa = [float(v) for v in xvals]
+    if variant['layout'] == '0d':
+        xa = xa[:4]
+    types = [xd, *pds]
+    eps = EPS32 if 'float32' in types else EPS
+    out = {'out': 'ok', 'flags': [], 'types': types, 'held': held, 'actual_variant': {**variant, 'xd': xd}}
+    try:
+        m = getattr(M, KIND_CLASS[kind])(prefix=prefix)
+        before = snapshot([*xlist, *params.values()])
+        rs = [m(x, **params) for x in xlist]
+        first = [bits(r) for r in rs]
+        got = [float(v) for v in flat(rs)]
+        ok = all(r.unit == sc.Unit(yu) for r in rs) and len(got) == len(xa)
+        detail = []
+        fh = held.get('fraction') if kind == 'pvoigt' else None
+        for xv, gv in zip(xa, got, strict=False):
+            want = lp.mp_peak(lpk, xv, held['amplitude'], held['loc'], held['scale'], fh)
+            tol = point_tolerance(kind, xv, held['loc'], held['scale'], eps)
+            err = float(abs((mpmath.mpf(gv) - want) / want)) if math.isfinite(gv) else math.inf
+            if not err <= tol:
+                ok = False
+                detail.append([xv, repr(gv), float(want), err, tol])
+        out['flags'].append(['point_values_differ_from_closed_form', bool(ok)])
+        if detail:
+            out['detail'] = detail[:4]
+        fw = m.fwhm(params)
+        out['flags'].append(['reported_fwhm_differs_from_closed_form', bool(
+            fw.unit == sc.Unit(xu)
+            and abs(float(fw.value) - float(lp.mp_fwhm(lpk, held['scale']))) <= 8 * eps * abs(float(fw.value)))])
+        out['flags'].append(['evaluation_modified_its_arguments', bool(snapshot([*xlist, *params.values()]) == before)])
+        out['flags'].append(['second_evaluation_with_the_same_objects_differs',
+                             bool([bits(r) for r in [m(x, **params) for x in xlist]] == first)])
+    except Exception as exc:  # noqa: BLE001
+        out['out'] = 'refused'
+        out['exc'] = type(exc).__name__
+        out['exc_detail'] = repr(exc)[:200]
+    return out
+
+
+def unsupported(e):
+    """A scipp DTypeError for a call with at least one integer-typed operand: accepted as "unsupported"."""
+    types = e.get('types') if e.get('ev') != 'poly' else [e['xd'], *e['cds']]
+    return e.get('out') == 'refused' and e.get('exc') == 'DTypeError' and any(map(is_int_type, types or []))
+
+
+def _bad(r):
+    return (r['out'] != 'ok' and not unsupported(r)) or not all(fl[1] for fl in r['flags'])
+
+
+def variant_event(ctx, events, kind, g, idx, variant):
+    """One grid point in one evaluation variant.  When it fails, the variant is reduced to the single dimension
+    (element types / layout / order) that fails on its own, so that the violation key names the cause."""
+    mpmath.mp.dps = 60
+    r = _variant_run(kind, g, idx, variant)
+    blame = ''
+    if _bad(r):
+        singles = {'types': {**BASE_VARIANT, 'xd': variant['xd'], 'pd': variant['pd']},
+                   'layout': {**BASE_VARIANT, 'layout': variant['layout']},
+                   'order': {**BASE_VARIANT, 'order': variant['order']}}
+        for dim, v1 in singles.items():
+            if v1 != BASE_VARIANT and _bad(_variant_run(kind, g, idx, v1)):
+                blame = dim
+                break
+    ev = {'ev': 'flags', 'tid': 0, 'what': 'variant', 'kind': kind, 'grid': g, 'variant': r.pop('actual_variant'),
+          'blame': blame, **r}
+    events.append(ev)
+    ctx.case(nontrivial_id=('gv', kind, json.dumps(g), json.dumps(variant, sort_keys=True)))
+
+
+def typing_label(types):
+    """Coarse, stable description of the element types of (x, amplitude, loc, scale[, fraction]) for keys."""
+    x, p = types[0], types[1:]
+    parts = []
+    if is_int_type(x):
+        parts.append('integer-typed x')
+    elif x == 'float32':
+        parts.append('float32 x')
+    ints = [n for n, d in zip(('amplitude', 'loc', 'scale', 'fraction'), p, strict=False) if is_int_type(d)]
+    if ints:
+        parts.append('integer-typed ' + '/'.join(ints))
+    if 'float32' in p:
+        parts.append('float32 parameters')
+    return ', '.join(parts) or 'float64 operands'
 
 
 # --------------------------------------------------------------------------------- random expressions
@@ -537,8 +898,44 @@ def well_formed_inner(e):
 
 
 # --------------------------------------------------------------------------------- run
+def single_precision_first():
+    """Hostile history of this driver's own cases (HARDENING item 6): before anything is judged, every model is
+    used once with float32 operands in the very units the judged cases use, then with integer operands.  Nothing
+    is judged here, exceptions are ignored; a correct implementation keeps nothing from these calls."""
+    from scippneutron.peaks import model as M
+
+    n = 0
+    for xu, yu in (('angstrom', 'counts'), ('us', 'K'), ('one', 'one'), ('m', 'K')):
+        for dt in ('float32', 'int64'):
+            x = sc.array(dims=['x'], values=np.array([0, 1, 3], dtype=dt), unit=xu)
+            pk = {'amplitude': sc.scalar(2, dtype=dt, unit=sc.Unit(yu) * sc.Unit(xu)), 'loc': sc.scalar(1, dtype=dt, unit=xu),
+                  'scale': sc.scalar(2, dtype=dt, unit=xu)}
+            calls = [(M.GaussianModel(), pk), (M.LorentzianModel(), pk),
+                     (M.PseudoVoigtModel(), {**pk, 'fraction': sc.scalar(1, dtype=dt)}),
+                     (M.PolynomialModel(degree=2), {f'a{i}': sc.scalar(1 + i, dtype=dt, unit=sc.Unit(yu) / sc.Unit(xu) ** i)
+                                                   for i in range(3)})]
+            for m, p in calls:
+                for f in (lambda m=m, p=p: m(x, **p), lambda m=m, p=p: m.fwhm(p), lambda m=m, p=p: m.with_prefix('w_')):
+                    try:
+                        f()
+                    except Exception:  # noqa: BLE001
+                        pass
+                    n += 1
+    return n
+
+
+KEEP = ('ev', 'tid', 'model', 'out', 'names', 'keys', 'guess_keys', 'bounds_keys', 'guess_same', 'bounds_same',
+        'coefs', 'xs', 'got', 'kind', 'pu', 'ux', 'a', 'b', 'flags', 'types', 'xd', 'cds', 'layout', 'order',
+        'args_same', 'again_same', 'kept', 'same', 'second', 'what', 'variant', 'blame', 'exc')
+
+
+def kept(e):
+    return {k: v for k, v in e.items() if k in KEEP}
+
+
 def run(ctx):
     import warnings
+    from concurrent.futures import ThreadPoolExecutor
 
     warnings.simplefilter('ignore')     # numpy's RankWarning of polynomial guesses on few points is not a verdict
     ctx.rule = RULE
@@ -546,7 +943,15 @@ def run(ctx):
     ctx.assume('normalisation, half maximum and symmetry of the transcendental closed forms are compared numerically '
                '(mpmath, 60 digits) at the enumerated grid; TLC decides the name/refusal/polynomial/Lorentzian/unit algebra')
     ctx.assume('units: powers of two base units and of ten; scipp performs no implicit conversion between m and mm')
-    # ---- 1. design
+    ctx.assume('a scipp DTypeError for a call with at least one integer-typed operand is accepted as "unsupported element '
+               'types" (the quantifier names no element types; weakest reading as for C07); whatever is returned for '
+               'integer operands is judged; an operation on a float32 operand may round to single precision (tolerance '
+               '(4q+16) 2^-23)')
+    ctx.extra['single_precision_first_calls'] = single_precision_first()
+    # ---- 1. design (the negative controls run beside the main model)
+    pool = ThreadPoolExecutor(max_workers=4)
+    negs = [pool.submit(ctx.tlc, 'peaks/MC_PeakModels.tla', f'Neg_PeakModels_{neg}.cfg', expect_error=True, timeout=300,
+                        workers=2) for neg in ('clash', 'subset', 'horner', 'fwhm', 'types', 'reuse')]
     if ctx.thorough:
         res = ctx.tlc('peaks/MC_PeakModels.tla', 'MC_PeakModels_thorough.cfg', timeout=1500, workers=WORKERS)
         require_ok(ctx, res, 'PeakModels model (thorough)')
@@ -555,39 +960,63 @@ def run(ctx):
     else:
         res = ctx.tlc('peaks/MC_PeakModels.tla', 'MC_PeakModels.cfg', timeout=600, workers=WORKERS)
         require_ok(ctx, res, 'PeakModels model')
-    for neg in ('clash', 'subset', 'horner', 'fwhm'):
-        ctx.tlc('peaks/MC_PeakModels.tla', f'Neg_PeakModels_{neg}.cfg', expect_error=True, timeout=300,
-                workers=min(WORKERS, 4))
     # ---- 2. enumerated cases
-    mf, gf, uf = ctx.tmp / 'models.ndjson', ctx.tmp / 'grid.ndjson', ctx.tmp / 'units.ndjson'
+    mf, gf, uf, vf = (ctx.tmp / f'{n}.ndjson' for n in ('models', 'grid', 'units', 'variants'))
     gen = ctx.tlc('peaks/Gen_PeakModels.tla', workers=1, timeout=600, count=False,
-                  env={'MODEL_FILE': str(mf), 'GRID_FILE': str(gf), 'UNIT_FILE': str(uf)})
+                  env={'MODEL_FILE': str(mf), 'GRID_FILE': str(gf), 'UNIT_FILE': str(uf), 'VARIANT_FILE': str(vf)})
     require_ok(ctx, gen, 'Gen_PeakModels')
+    for fut in negs:
+        fut.result()            # a negative control that was not rejected raises MachineryError
+    pool.shutdown()
 
     def load(p):
         return [json.loads(line) for line in p.read_text().splitlines() if line.strip()]
 
-    models, grid, ucases = load(mf), load(gf), load(uf)
+    models, grid, ucases, variants = load(mf), load(gf), load(uf), load(vf)
     g = gen.tagged('GEN')
-    if not g or g[0][1:] != [len(models), len(grid), len(ucases)]:
+    if not g or g[0][1:] != [len(models), len(grid), len(ucases), len(variants)]:
         raise MachineryError(f'case generation incomplete: {g}')
     ctx.extra['enumerated_model_expressions'] = len(models)
     ctx.extra['enumerated_grid_points'] = len(grid)
     ctx.extra['enumerated_unit_cases'] = len(ucases)
+    ctx.extra['enumerated_evaluation_variants'] = len(variants)
     events: list = []
+    recipes: list = []          # (first event index, one-past-last, function(events)) for the replay pass
     rng = ctx.rng
+    variants = [v for v in sorted(variants, key=lambda v: json.dumps(v, sort_keys=True)) if v != BASE_VARIANT]
+    rng.shuffle(variants)
+    vcount = [0]
+
+    def next_variant():
+        vcount[0] += 1
+        return variants[vcount[0] % len(variants)]
+
+    def record(fn):
+        start = len(events)
+        fn(events)
+        recipes.append((start, len(events), fn))
+
     # data for guess()
     xg = np.linspace(0.0, 10.0, 61)
     yg = 2.0 + 0.3 * xg + lp.np_gaussian(xg, 12.0, 4.5, 0.8)
     gdata = sc.DataArray(sc.array(dims=['x'], values=yg, unit='counts'), coords={'x': sc.array(dims=['x'], values=xg, unit='angstrom')})
+
+    def model_case(e, idx, probes, aux):
+        seed = rng.getrandbits(48)
+
+        def fn(evs):
+            m = model_events(ctx, evs, e, idx, probes=probes, rng=random.Random(seed))
+            if m is not None and aux and len(set(names_of(e))) == len(names_of(e)):
+                aux_event(ctx, evs, e, m, gdata)
+        return fn
+
     leaves = [e for e in models if e['kind'] != 'comp']
     comps = [e for e in models if e['kind'] == 'comp']
     if not ctx.thorough:
         comps = rng.sample(comps, 1200)
     for k, e in enumerate(leaves + comps):
-        m = model_events(ctx, events, e, k, probes='all' if (e['kind'] != 'comp' or not ctx.thorough) else 'some')
-        if m is not None and k % (3 if ctx.thorough else 6) == 0 and len(set(names_of(e))) == len(names_of(e)):
-            aux_event(ctx, events, e, m, gdata)
+        record(model_case(e, k, 'all' if (e['kind'] != 'comp' or not ctx.thorough) else 'some',
+                          k % (3 if ctx.thorough else 6) == 0))
     # random deeper expressions
     n_rand = 2500 if ctx.thorough else 500
     made = 0
@@ -596,20 +1025,54 @@ def run(ctx):
         if not well_formed_inner(e):
             continue
         made += 1
-        m = model_events(ctx, events, e, made, probes='some')
-        if m is not None and made % 5 == 0 and len(set(names_of(e))) == len(names_of(e)):
-            aux_event(ctx, events, e, m, gdata)
+        record(model_case(e, made, 'some', made % 5 == 0))
     # ---- polynomials, units, closed forms
-    poly_events(ctx, events)
+    plain = {'layout': '1d', 'order': 'declared'}
+    for k, coefs in enumerate(poly_vectors(ctx)):
+        for v in ({**plain, 'xd': 'int64', 'pd': 'int64'}, {**plain, 'xd': 'float64', 'pd': 'float64'}, next_variant()):
+            record(lambda evs, coefs=coefs, k=k, v=v: poly_case(ctx, evs, coefs, k, v))
+    ustart = len(events)
     units_part(ctx, events, ucases)
+    for i in range(ustart, len(events)):
+        if events[i]['ev'] == 'unit':
+            ue = events[i]
+            recipes.append((i, i + 1, lambda evs, ue=ue: unit_event(ctx, evs, ue['kind'], [tuple(u) for u in ue['pu']],
+                                                                    tuple(ue['ux']), ue['idx'])))
     if not ctx.thorough:
         # every scale and every amplitude, a third of the (loc, fraction) combinations
-        grid = [g_ for i, g_ in enumerate(sorted(grid, key=lambda r: (r['e'], r['A'], r['mu'], r['f']))) if i % 3 == 0]
+        key = lambda r: (r['ea'], r['em'], r['e'], r['A'], r['mu'], r['f'], r['fe'])      # noqa: E731
+        grid = [g_ for i, g_ in enumerate(sorted(grid, key=key)) if i % 3 == 0]
     for k, g_ in enumerate(grid):
         for kind in ('gauss', 'lorentz', 'pvoigt'):
             if kind != 'pvoigt' and g_['f'] not in (0, 3):
                 continue
-            numeric_event(ctx, events, kind, g_, k)
+            record(lambda evs, kind=kind, g_=g_, k=k, v=next_variant(): numeric_event(ctx, evs, kind, g_, k, v))
+    # ---- 3. replay: a sample of all kinds of cases again, in another order (HARDENING item 6)
+    n_first = len(events)
+    by_kind: dict = {}
+    for rec in recipes:
+        if rec[1] > rec[0]:
+            by_kind.setdefault(events[rec[0]]['ev'] + ':' + events[rec[0]].get('what', ''), []).append(rec)
+    sample = []
+    for recs in by_kind.values():
+        sample += rng.sample(recs, min(len(recs), 120 if ctx.thorough else 40))
+    rng.shuffle(sample)
+    n_replayed = 0
+    for start, stop, fn in sample:
+        second: list = []
+        fn(second)
+        firsts = events[start:stop]
+        if len(second) != len(firsts):
+            events.append({'ev': 'replay', 'tid': 0, 'what': firsts[0]['ev'], 'same': False, 'second': kept(firsts[0]),
+                           'first': kept(firsts[0]), 'note': f'{len(firsts)} events first, {len(second)} on replay'})
+            continue
+        for e1, e2 in zip(firsts, second, strict=True):
+            same = json.dumps(kept(e1), sort_keys=True) == json.dumps(kept(e2), sort_keys=True)
+            events.append({'ev': 'replay', 'tid': 0, 'what': e1['ev'], 'same': bool(same), 'second': kept(e2),
+                           **({} if same else {'first': kept(e1)})})
+            n_replayed += 1
+    ctx.extra['replayed_in_another_order'] = n_replayed
+    ctx.extra['first_pass_events'] = n_first
     for i, e in enumerate(events):
         e['tid'] = i
     kinds = {}
@@ -618,13 +1081,12 @@ def run(ctx):
         if kinds[e['ev']] == 1:
             ctx.sample(e)
     ctx.extra['events_by_kind'] = kinds
-    worst = max((e.get('integral_rel_err', 0.0) for e in events), default=0.0)
+    ctx.extra['integer_operands_refused_with_DTypeError'] = sum(1 for e in events if unsupported(e))
+    worst = max((e['integral_rel_err'] for e in events if isinstance(e.get('integral_rel_err'), float)), default=0.0)
     ctx.extra['worst_integral_relative_error'] = worst
     # ---- TLC judges every event
-    keep = ('ev', 'tid', 'model', 'out', 'names', 'keys', 'guess_keys', 'bounds_keys', 'guess_same', 'bounds_same',
-            'coefs', 'xs', 'got', 'kind', 'pu', 'ux', 'a', 'b', 'flags')
     tf = ctx.tmp / 'c16.ndjson'
-    write_ndjson(tf, [{k: v for k, v in e.items() if k in keep} for e in events])
+    write_ndjson(tf, [kept(e) for e in events])
     tr = ctx.tlc('peaks/Trace_PeakModels.tla', workers=1, env={'TRACE_FILE': str(tf)}, timeout=1500)
     require_ok(ctx, tr, 'Trace_PeakModels')
     done = tr.tagged('DONE')
@@ -632,18 +1094,50 @@ def run(ctx):
         raise MachineryError(f'trace validation incomplete: {done} vs {len(events)} events')
     ctx.traces(len(events))
     rejected_lines = {r[1] for r in tr.tagged('REJECT')}
-    # the control corrupts events the judge ACCEPTED (so its outcome cannot depend on the code under test)
-    _judge_control(ctx, [e for i, e in enumerate(events) if i + 1 not in rejected_lines], keep)
     for _, line, _tid, clause in tr.tagged('REJECT'):
-        e = events[line - 1]
-        what = e.get('kind') or (e.get('model') or {}).get('kind') or e.get('what', '')
-        if e['ev'] == 'flags' and e.get('what') == 'routing':
-            what = 'composite' if e['model']['kind'] == 'comp' else e['model']['kind']
-        key = f'{e["ev"]}: {clause} ({what})'
-        ctx.violation(key, {'event': {k: v for k, v in e.items() if k not in ('xs',)}})
+        ctx.violation(violation_key(events[line - 1], clause),
+                      {'event': {k: v for k, v in events[line - 1].items() if k not in ('xs',)}})
+    # the control corrupts events the judge ACCEPTED (so its outcome cannot depend on the code under test)
+    _judge_control(ctx, [e for i, e in enumerate(events) if i + 1 not in rejected_lines])
 
 
-def _judge_control(ctx, events, keep):
+def violation_key(e, clause):
+    """Stable, specific signature: event kind, failing clause, model kind and - for evaluation variants and
+    refusals - the operand typing / layout / order that is responsible."""
+    if e['ev'] == 'replay':
+        inner = e['second']
+        if clause == 'replayed_case_differs_from_its_first_evaluation':
+            what = inner.get('kind') or (inner.get('model') or {}).get('kind') or inner['ev']
+            return f'replay: {clause} ({inner["ev"]} {what})'
+        # the second observation fails the judge on its own: the key of that failure (shared with the first
+        # observation if that failed alike)
+        return violation_key(inner, clause) + ('' if e['same'] else ' [second evaluation only]')
+    what = e.get('kind') or (e.get('model') or {}).get('kind') or e.get('what', '')
+    if e['ev'] == 'flags' and e.get('what') == 'routing':
+        what = 'composite' if e['model']['kind'] == 'comp' else e['model']['kind']
+    if e['ev'] == 'poly':
+        what = 'polynomial'
+        if clause.startswith('polynomial_refused'):
+            what = f'{e.get("exc", "")}; x {e["layout"]}' if e['layout'] != '1d' else e.get('exc', '')
+        elif e['layout'] != '1d' or e['order'] != 'declared' or e['xd'] != e['cds'][-1] or len(set(e['cds'])) > 1:
+            what = 'polynomial, variant'
+    if e['ev'] == 'flags' and e.get('what') in ('variant', 'closed_form') and e.get('types'):
+        t = e['types']
+        if clause.startswith('evaluation_refused'):
+            what += f'; {e.get("exc", "")}' + ('; integer-typed operands' if any(map(is_int_type, t)) else '')
+            if e.get('what') == 'variant' and e.get('blame') in ('layout', 'order'):
+                what += f'; {e["blame"]} {e["variant"][e["blame"]]}'
+        elif e.get('what') == 'variant':
+            blame = e.get('blame')
+            v = e['variant']
+            label = {'types': 'element types: ' + ('float32' if 'float32' in t else 'integer' if any(map(is_int_type, t))
+                                                   else 'float64'),
+                     'layout': f'x {v["layout"]}', 'order': 'keyword order'}.get(blame, 'combined variant')
+            what += f'; {label}'
+    return f'{e["ev"]}: {clause} ({what})'
+
+
+def _judge_control(ctx, events):
     """Negative control of the judge: corrupted copies of accepted events (one field each) must be rejected."""
     import copy
 
@@ -658,21 +1152,45 @@ def _judge_control(ctx, events, keep):
         b = copy.deepcopy(ce)
         b['out'] = 'ok'
         bad.append(b)
-    pe = next((e for e in events if e['ev'] == 'poly' and e['out'] == 'ok'), None)
+    pe = next((e for e in events if e['ev'] == 'poly' and e['out'] == 'ok' and e['got']), None)
     if pe:
         b = copy.deepcopy(pe)
         b['got'][-1] += 1
+        bad.append(b)
+        b = copy.deepcopy(pe)
+        b['kept'] = False
+        bad.append(b)
+        b = copy.deepcopy(pe)
+        b.update(out='refused', exc='ValueError')          # any exception other than DTypeError is a refusal
+        bad.append(b)
+    pf = next((e for e in events if e['ev'] == 'poly' and e['out'] == 'ok' and not any(map(is_int_type, [e['xd'], *e['cds']]))), None)
+    if pf:
+        b = copy.deepcopy(pf)
+        b.update(out='refused', exc='DTypeError')          # "unsupported" needs an integer-typed operand
         bad.append(b)
     ue = next((e for e in events if e['ev'] == 'unit' and e['out'][0] == 1), None)
     if ue:
         b = copy.deepcopy(ue)
         b['out'][2] += 1
         bad.append(b)
+    fe = next((e for e in events if e['ev'] == 'flags' and e.get('what') == 'variant' and e['flags']), None)
+    if fe:
+        b = copy.deepcopy(fe)
+        b['flags'][-1][1] = False
+        bad.append(b)
+    re_ = next((e for e in events if e['ev'] == 'replay' and e['same']), None)
+    if re_:
+        b = copy.deepcopy(re_)
+        b['same'] = False
+        bad.append(b)
+    if not bad:
+        ctx.extra['judge_control'] = 'no accepted event to corrupt (everything was rejected)'
+        return
     tf = ctx.tmp / 'c16-control.ndjson'
-    write_ndjson(tf, [{k: v for k, v in e.items() if k in keep} for e in bad])
+    write_ndjson(tf, [kept(e) for e in bad])
     tr = ctx.tlc('peaks/Trace_PeakModels.tla', workers=1, env={'TRACE_FILE': str(tf)}, timeout=300, count=False)
     require_ok(ctx, tr, 'Trace_PeakModels (control)')
-    if len(tr.tagged('REJECT')) != len(bad) or not bad:
+    if len(tr.tagged('REJECT')) != len(bad):
         raise MachineryError(f'judge control: {len(bad)} corrupted events, rejected {tr.tagged("REJECT")}')
     ctx.extra['judge_control'] = f'{len(bad)} corrupted events rejected'
 
@@ -693,5 +1211,9 @@ META = {
             '60-digit closed forms on the enumerated grid (scales 1e-6..1e6, both amplitude signs, fractions 0..1).',
     'note': 'The transcendental sub-claims (normalisation, half maximum, symmetry of Gaussian and pseudo-Voigt) are '
             'decided numerically on finitely many enumerated points, not by TLC (DESIGN §6). Trusted: TLC, scipp, numpy, '
-            'mpmath. Any exception counts as refusal.',
+            'mpmath. Any exception counts as refusal. Hardening round: TLC also decides the typed Horner evaluation '
+            '(never refused, nothing narrowed) and the reuse of parameter objects (arguments unchanged, repeatable); the '
+            'real models are evaluated with integer / float32 / mixed operands, scalar / strided / 2-d / transposed x, '
+            'shuffled keyword order, twice with the same objects, and a sample of all cases again at the end in another '
+            'order (replay events judged by TLC).',
 }
